@@ -360,8 +360,71 @@ fn repeated(ctx: &mut Ctx) {
     }
 }
 
+/// Node ids are handed out by the process, not chosen by a caller: two nodes of ONE graph can carry
+/// ids tens of millions apart when other graphs were built in between. Every GRAPH.* instruction is
+/// probed on such a graph (work or memory proportional to the id range is operand-magnitude work).
+fn far_apart_ids(ctx: &mut Ctx) {
+    if ctx.is_fuzz() || ctx.profile != "release" {
+        return;
+    }
+    let case = 4_000_000u64;
+    if !ctx.mine(case) {
+        return;
+    }
+    use pushr::push::graph::{Graph, Node};
+    let (mut is, names) = new_iset();
+    let cache = sorted_cache(&is);
+    let mut g = Graph::new();
+    let a = g.add_node(1);
+    for _ in 0..12_000_000u32 {
+        std::hint::black_box(Node::new(0));
+    }
+    let b = g.add_node(2);
+    g.add_edge(a, b, 0.5);
+    g.add_edge(b, a, 1.5);
+    ctx.rec.note("far_apart_node_ids", &format!("{} and {}", a, b));
+    for name in names.iter().filter(|n| n.starts_with("GRAPH.")) {
+        for variant in 0..2 {
+            let mut st = build_state(&tiny_state());
+            st.graph_stack.flush();
+            st.graph_stack.push(g.clone());
+            st.graph_stack.push(g.clone());
+            st.int_stack.flush();
+            for v in if variant == 0 { [a as i32, b as i32, a as i32, 1] } else { [1, 0, b as i32, a as i32] } {
+                st.int_stack.push(v);
+            }
+            st.int_vector_stack.push(pushr::push::vector::IntVector::new(vec![1, 2]));
+            let pre = Snap::of(&st);
+            let bnd = bound(&pre);
+            ctx.rec.case_marker(case, &format!("{}|ids:far-apart :: graph with node ids {} and {}", name, a, b));
+            st.exec_stack.push(Item::instruction(name.clone()));
+            let a0 = alloc::mark();
+            let c0 = proc_cpu_us();
+            STEP_START_CPU.store(c0.max(1), Ordering::Relaxed);
+            let res = guarded(|| PushInterpreter::step(&mut st, &mut is, &cache));
+            STEP_START_CPU.store(0, Ordering::Relaxed);
+            let cpu_us = proc_cpu_us() - c0;
+            let req = alloc::stats().requested - a0.requested;
+            ctx.rec.count("steps", 1);
+            ctx.rec.count("far_apart_id_steps", 1);
+            if res.is_err() {
+                continue;
+            }
+            if req > bnd {
+                ctx.rec.violation("C15", &format!("{}|ids:far-apart|mem", name), &format!("one step requested {} bytes on a two-node graph whose ids are {} and {} (bound {})", req, a, b, bnd), "");
+            }
+            if cpu_us > 100_000 {
+                ctx.rec.violation("C15", &format!("{}|ids:far-apart|time", name), &format!("one step burned {:.2} s CPU on a two-node graph whose ids are {} and {}", cpu_us as f64 / 1e6, a, b), "");
+            }
+            ctx.rec.cover(&format!("far|{}|{}", name, variant));
+        }
+    }
+}
+
 pub fn run(ctx: &mut Ctx) {
     start_watchdog(if ctx.quick() { 3.0 } else { 10.0 });
+    far_apart_ids(ctx);
+    ctx.rec.checkpoint();
     steps(ctx);
     ctx.rec.checkpoint();
     repeated(ctx);
